@@ -2,6 +2,7 @@
 // holding Map views over it, reference model, and the intercepted-write-set oracle.  Uninstrumented.
 #include <signal.h>
 #include <sys/personality.h>
+#include <sys/wait.h>
 #include <time.h>
 #include <unistd.h>
 
@@ -257,21 +258,45 @@ struct HistStats {
 };
 
 static std::string g_current_plan;  // for the crash handler
+static const History* g_cur_hist;
+static volatile int g_cur_step = -1;
+struct HistStats;
+static HistStats* g_stats;
+static uint64_t g_nh, g_nontriv, g_dh;
+static void print_stats(const HistStats& st, uint64_t nh, uint64_t ntriv, uint64_t distinct_hash);
 static std::string g_cand_dir;
 static uint64_t g_cur_seed, g_cur_w;
 
 static void crash_handler(int sig) {
   char nm[512];
   snprintf(nm, sizeof nm, "%s/crash-%" PRIu64 "-%" PRIu64 ".plan", g_cand_dir.empty() ? "." : g_cand_dir.c_str(), g_cur_seed, g_cur_w);
-  FILE* f = fopen(nm, "w");
+  FILE* f = g_cand_dir.empty() ? nullptr : fopen(nm, "w");
+  if (!f) nm[0] = 0;
   if (f) {
     fwrite(g_current_plan.data(), 1, g_current_plan.size(), f);
     fclose(f);
   }
-  char b[700];
-  int n = snprintf(b, sizeof b, "{\"t\":\"hist\",\"seed\":%" PRIu64 ",\"w\":%" PRIu64 ",\"cls\":\"crash\",\"viol\":32,\"sig\":%d,\"cand\":\"%s\"}\n",
-                   g_cur_seed, g_cur_w, sig, nm);
+  char b[1200];
+  char callinfo[400] = "";
+  if (g_cur_hist && g_cur_step >= 0 && (size_t)g_cur_step < g_cur_hist->steps.size()) {
+    const Step& s = g_cur_hist->steps[(size_t)g_cur_step];
+    const TypeDef* td = find_type(g_cur_hist->type.c_str());
+    if (s.kind == ST_CALL && td) {
+      int part = (td->nparts && call_uses_part(s.call.id)) ? s.call.part % td->nparts : -1;
+      snprintf(callinfo, sizeof callinfo, ",\"type\":\"%s\",\"call\":\"%s\",\"view\":\"%s\",\"part\":\"%s\",\"align\":%d",
+               td->name, kCallNames[s.call.id], s.call.view ? "Map<const G>" : "Map<G>", part >= 0 ? td->part_names[part] : "",
+               g_cur_hist->align);
+    }
+  }
+  int n = snprintf(b, sizeof b, "{\"t\":\"hist\",\"seed\":%" PRIu64 ",\"w\":%" PRIu64 ",\"cls\":\"crash\",\"viol\":32,\"sig\":%d,\"step\":%d%s,\"cand\":\"%s\"}\n",
+                   g_cur_seed, g_cur_w, sig, (int)g_cur_step, callinfo, nm);
+  fflush(stdout);
   (void)!write(1, b, (size_t)n);
+  if (g_stats) {
+    // what the batch had covered before the crash
+    print_stats(*g_stats, g_nh, g_nontriv, g_dh);
+    fflush(stdout);
+  }
   _exit(70);
 }
 
@@ -305,8 +330,10 @@ static StepReport run_history(const History& hs, HistStats& st) {
   void* views = td->make_views(arena_ptr);
   static Ctx cx;
 
+  g_cur_hist = &hs;
   for (size_t si = 0; si < hs.steps.size(); ++si) {
     const Step& s = hs.steps[si];
+    g_cur_step = (int)si;
     if (s.kind == ST_OVERWRITE) {
       // the environment replaces an element by another valid one (a view that cached anything
       // now disagrees); mirrored in the model
@@ -623,48 +650,73 @@ int main(int argc, char** argv) {
     uint64_t seed = strtoull(pos[0].c_str(), nullptr, 10), w0 = strtoull(pos[1].c_str(), nullptr, 10),
              wstep = strtoull(pos[2].c_str(), nullptr, 10);
     double t_end = now_s() + atof(pos[3].c_str());
-    HistStats st;
-    uint64_t nh = 0, nontriv = 0, dh = 0;
-    int ncand = 0;
+    // histories run in batches, each batch in a forked child: a crash inside the library (e.g. a
+    // misaligned vector store) ends only its batch; the signal handler has already written the
+    // history as a candidate
     g_cur_seed = seed;
-    for (uint64_t w = w0; nh < max_hist; w += wstep, ++nh) {
-      if ((nh & 63) == 0 && now_s() > t_end) break;
-      History hs;
-      gen_history(seed, w, thorough, only_type, hs);
-      g_cur_w = w;
-      g_current_plan = history_to_text(hs);
-      HistStats before = st;
-      StepReport rep = run_history(hs, st);
-      // non-trivial: at least one mutating call through a sub-part view or with identical source
-      // and destination regions actually executed
-      bool nt = (st.part_calls > before.part_calls && st.mutating > before.mutating) || st.overlapping > before.overlapping;
-      if (nt) {
-        nontriv++;
-        uint64_t hh = 0;
-        for (char ch : g_current_plan) hh = mix64(hh ^ (uint64_t)(unsigned char)ch);
-        dh ^= mix64(hh);  // order-independent digest of the set of nontrivial histories (for the determinism check)
-      }
-      if (rep.viol) {
-        std::string cand;
-        if (ncand < max_cands && !g_cand_dir.empty()) {
-          char nm[512];
-          snprintf(nm, sizeof nm, "%s/cand-%" PRIu64 "-%" PRIu64 ".plan", g_cand_dir.c_str(), seed, w);
-          FILE* f = fopen(nm, "w");
-          if (f) {
-            fwrite(g_current_plan.data(), 1, g_current_plan.size(), f);
-            fclose(f);
-            cand = nm;
-            ncand++;
+    const uint64_t kBatch = 2048;
+    uint64_t done = 0;
+    int ncand_total = 0;
+    for (uint64_t b = 0; done < max_hist; ++b) {
+      if (now_s() > t_end) break;
+      uint64_t todo = max_hist - done < kBatch ? max_hist - done : kBatch;
+      fflush(stdout);
+      pid_t pid = fork();
+      if (pid == 0) {
+        HistStats st;
+        uint64_t nh = 0, nontriv = 0, dh = 0;
+        int ncand = 0;
+        g_stats = &st;
+        for (uint64_t i = 0; i < todo; ++i, ++nh) {
+          g_nh = nh;
+          g_nontriv = nontriv;
+          g_dh = dh;
+          uint64_t w = w0 + (done + i) * wstep;
+          History hs;
+          gen_history(seed, w, thorough, only_type, hs);
+          g_cur_w = w;
+          g_current_plan = history_to_text(hs);
+          HistStats before = st;
+          StepReport rep = run_history(hs, st);
+          bool nt = (st.part_calls > before.part_calls && st.mutating > before.mutating) || st.overlapping > before.overlapping;
+          if (nt) {
+            nontriv++;
+            uint64_t hh = 0;
+            for (char ch : g_current_plan) hh = mix64(hh ^ (uint64_t)(unsigned char)ch);
+            dh ^= mix64(hh);
+          }
+          if (rep.viol) {
+            std::string cand;
+            if (ncand_total + ncand < max_cands && !g_cand_dir.empty()) {
+              char nm[512];
+              snprintf(nm, sizeof nm, "%s/cand-%" PRIu64 "-%" PRIu64 ".plan", g_cand_dir.c_str(), seed, w);
+              FILE* f = fopen(nm, "w");
+              if (f) {
+                fwrite(g_current_plan.data(), 1, g_current_plan.size(), f);
+                fclose(f);
+                cand = nm;
+                ncand++;
+              }
+            }
+            printf("%s\n", hist_json("hist", seed, w, hs, rep, cand).c_str());
+            fflush(stdout);
+          } else if (b == 0 && nh < 3) {
+            printf("%s\n", hist_json("hist", seed, w, hs, rep, "").c_str());
           }
         }
-        printf("%s\n", hist_json("hist", seed, w, hs, rep, cand).c_str());
+        print_stats(st, nh, nontriv, dh);
         fflush(stdout);
-      } else if (nh < 3) {
-        printf("%s\n", hist_json("hist", seed, w, hs, rep, "").c_str());
+        _exit(ncand > 0 ? 10 + (ncand > 50 ? 50 : ncand) : 0);
       }
+      int stt = 0;
+      waitpid(pid, &stt, 0);
+      if (WIFEXITED(stt)) {
+        int ec = WEXITSTATUS(stt);
+        if (ec >= 10 && ec <= 60) ncand_total += ec - 10;
+        if (ec == 70) ncand_total += 1;
+      }
+      done += todo;
     }
-    print_stats(st, nh, nontriv, dh);
-    fflush(stdout);
     return 0;
   }
   return 2;
